@@ -93,6 +93,34 @@ def _unit_fold(_):
                         u.nontrivial += 1
                         for sym, det in check_ts(e.timestamp, want, f"fold-zone {dt.isoformat()} fold={fold} via {path}"):
                             u.violation(f"event:{sym}:dst-fold/{path}", det, {"kind": "fold"}, size=hour * 100 + minute + fold)
+    # a DST zone whose offset is zero at the instant given (winter time): the event must still hold a UTC datetime
+    class WinterZero(tzinfo):
+        def utcoffset(self, dt):
+            return timedelta(hours=1) if 4 <= dt.month <= 9 else timedelta(0)
+
+        def dst(self, dt):
+            return self.utcoffset(dt)
+
+        def tzname(self, dt):
+            return "WINTERZERO"
+
+    wz = WinterZero()
+    for month in (1, 7, 12):
+        for us in (0, 999, 123456):
+            dt = datetime(2021, month, 15, 10, 30, 0, us, tzinfo=wz)
+            want = S.us_of((dt.replace(tzinfo=None) - wz.utcoffset(dt)).replace(tzinfo=UTC))
+            for path in ("ctor", "setter"):
+                if path == "ctor":
+                    e = Event(timestamp=dt, duration=0, data={})
+                else:
+                    e = Event(timestamp=datetime(2000, 1, 1, tzinfo=UTC), duration=0, data={})
+                    e.timestamp = dt
+                u.evaluations += 1
+                u.states += 1
+                u.transitions += 1
+                u.nontrivial += 1
+                for sym, det in check_ts(e.timestamp, want, f"zero-offset DST zone {dt.isoformat()} via {path}"):
+                    u.violation(f"event:{sym}:zero-offset-dst-zone/{path}", det, {"kind": "fold"}, size=month)
     u.sample({"kind": "dst fold", "wall_time": "2021-10-31T02:30:07.123456", "fold": [0, 1], "zone": "offset +02:00 before / +01:00 after a repeated hour"})
     return u.result()
 
@@ -103,8 +131,10 @@ def floor_ms_us(us):
 
 def check_ts(ev_ts, want_us, what):
     probs = []
-    if ev_ts.tzinfo is None or ev_ts.utcoffset() != timedelta(0):
-        probs.append(("timestamp-not-utc-aware", f"{what}: tzinfo {ev_ts.tzinfo}"))
+    if ev_ts.tzinfo is None or ev_ts.utcoffset() != timedelta(0) or ev_ts.tzinfo != timezone.utc:
+        # a zone that merely happens to have offset 0 at this instant (London in winter) is not UTC:
+        # arithmetic on such a datetime follows that zone's rules
+        probs.append(("timestamp-not-utc-aware", f"{what}: tzinfo {ev_ts.tzinfo!r}"))
         return probs
     got = S.us_of(ev_ts)
     if got != floor_ms_us(want_us):
@@ -279,6 +309,18 @@ def _unit_json(_):
                         e2 = Event(**json.loads(js))
                         if not (e2 == e) or e2.id != e.id or S.us_of(e2.timestamp) != S.us_of(e.timestamp) or e2.duration != e.duration:
                             probs.append(("json-roundtrip-differs", f"{S.ev_tuple(e)} -> {js} -> {S.ev_tuple(e2)}"))
+                        # serialise, then change every attribute through its setter, then serialise again:
+                        # the JSON form must follow (a seeded memo of the serialised dict forgot the id setter)
+                        e.to_json_dict()
+                        for attr, val in (("id", 4242), ("timestamp", ts + timedelta(hours=3)), ("duration", timedelta(microseconds=du + 1)), ("data", {"changed": True})):
+                            e4 = Event(**json.loads(e.to_json_str()))
+                            e4.to_json_str()
+                            e4.to_json_dict()
+                            setattr(e4, attr, val)  # ONE attribute assigned after a serialisation
+                            j4 = json.loads(e4.to_json_str())
+                            e5 = Event(**j4)
+                            if e5.id != e4.id or not (e5 == e4) or S.us_of(e5.timestamp) != S.us_of(e4.timestamp) or e5.duration != e4.duration or getattr(e5, attr) != getattr(e4, attr) or (attr == "id" and j4.get("id") != 4242):
+                                probs.append((f"json-stale-after-assigning-{attr}", f"serialise, assign {attr}, serialise again: JSON form is {j4}"))
                         e3 = Event(**e)
                         if not (e3 == e) or e3.id != e.id:
                             probs.append(("copy-from-event-differs", f"{S.ev_tuple(e)} -> {S.ev_tuple(e3)}"))
